@@ -50,3 +50,7 @@ add("C10", "property-based testing (Hypothesis): conservation + attribution vali
     "Generated-input search over C08's analyses: one breakdown row per critical edge, durations add up to the path weight, span edges attributed to an existing event of the same thread/stream covering the edge's time range, kernel-to-kernel edges to the preceding kernel, bound_by recomputed from the attributed event via vocabulary tags, summary() = per-class shares adding up to 100.",
     "Trusts the vocabulary tags for communication kernels and the window model; tolerance 1e-6 on percentages.",
     "DESIGN.md §5 C10")
+add("C19", "property-based testing (Hypothesis) over operation histories (save/restore cycles, recomputation, re-weighting) against the in-memory original as model",
+    "Generated histories of 1-6 operations over graphs of the C08 family: after every save+restore cycle the restored object is compared with the in-memory original (node set, edge set, per-edge weight/type/CPEdge, node_list, event->node maps, edge_to_event_map, critical path nodes/edges/events, breakdown as a multiset of rows); recomputation and what-if re-weighting are applied to both and the path weights compared.",
+    "The in-memory original is the model; path ties may be broken differently after a restore, so recomputed paths are compared by weight.",
+    "DESIGN.md §5 C19")
